@@ -373,14 +373,17 @@ func (e *Env) Gov(changes []ParamChange) (res string, errMsg string) {
 	if e.ap != nil {
 		return e.appGov(changes)
 	}
+	// like the gov end-blocker: the proposal runs in a cache context, written only if every change was accepted
+	cctx, write := e.ctx.CacheContext()
 	for _, c := range changes {
 		ss, ok := e.pk.GetSubspace(c.Subspace)
 		if !ok {
 			panic("unknown subspace " + c.Subspace)
 		}
-		if err := ss.Update(e.ctx, []byte(c.Key), []byte(c.Value)); err != nil {
-			panic(fmt.Sprintf("param change %s/%s=%s rejected: %v", c.Subspace, c.Key, c.Value, err))
+		if err := ss.Update(cctx, []byte(c.Key), []byte(c.Value)); err != nil {
+			return ResRej, fmt.Sprintf("param change %s/%s=%s rejected: %v", c.Subspace, c.Key, c.Value, err)
 		}
 	}
+	write()
 	return ResOK, ""
 }
